@@ -15,6 +15,10 @@ def run(tier, seed):
     # 1. no static-storage variable written after initialisation
     n = statics.check_statics(rep, prog, cg)
     rep.analysed['non-const static-storage variables'] = n
+    groots = cg.keys_of('bxdecay0::decay0_generator::shoot') + cg.keys_of('bxdecay0::genbbsub') + \
+        cg.keys_of('bxdecay0::dbd_gA::shoot') + cg.keys_of('bxdecay0::momentum_direction_lock_event_op::operator()')
+    nfz = statics.check_frozen_inputs(rep, prog, cg, groots)
+    rep.floor('STATICS.frozen-input', nfz, 20)
     # 2. no entropy / time source reachable from initialize / shoot
     rep.rule('GLOBAL-EFFECT.entropy', 'no wall-clock, process id, C random or random_device call is reachable from '
              'decay0_generator::initialize / shoot (or from any library function at all)')
@@ -40,6 +44,10 @@ def run(tier, seed):
     rep.rule('RESET.complete', 'reset() of event/particle/bbpars assigns every data member (write-set inclusion): a reused '
              'object carries nothing over')
     bp = typestate.reset_complete(rep, prog, 'bxdecay0::bbpars', 'bxdecay0::bbpars::reset', 'RESET.complete')
+    # the generator itself: a recycled instance (reset + same settings) must not keep anything a fresh one does not have
+    from .c09 import generator_reset_complete
+    # (`_debug_` only gates diagnostic printing; its survival across reset() is C09's known finding, it cannot change an event)
+    generator_reset_complete(rep, prog, ignore=('_debug_',))
     rep.floor('RESET.complete', ev + pt + bp, 30)
     # 4. use-after-invalidate (a capacity-dependent result)
     nb, adders = inv.check_all(rep, prog, cg, sigs, prog.functions.keys())
